@@ -133,7 +133,12 @@ class C01(Check):
                   'the rule text the handler was registered with, bound to its own filters\' values '
                   '(params_are_rule_names, filter_guard); for every filter environment, rex selectors included, a '
                   'handler is only called when its own rule matches and only with filter answers (get_sound, '
-                  'handler_called_only_on_match); every syntax flavour parses to the same abstract rule (parse_print). Model tied to the code by differential runs of whole registration/lookup histories.')
+                  'handler_called_only_on_match); every syntax flavour parses to the same abstract rule (parse_print). For rule sets that use only plain / int / '
+                  'float / path wildcards the filter environment is no longer a parameter: resolve_eq_rule_by_rule_builtin and '
+                  'filter_guard_builtin state the property over the concrete handlers of Model/RouterBuiltinEnv.lean (an int kwarg is '
+                  'the integer value of the -?\\d+ text at that position, a float kwarg the numeral matched by -?\\d+(\\.\\d+)?, a '
+                  'path kwarg the longest newline-free prefix followed by the literal that follows the wildcard), tied to the live '
+                  'handlers by builtin_env_probes_agree (decide over a regenerated table). Model tied to the code by differential runs of whole registration/lookup histories, half of them replayed with the concrete built-in handlers (router histb).')
     level_note_extra = ('regex filters are a parameter (real handler results shipped per lookup); filters answering '
                         'with a rex selector are outside the completeness/priority theorems (NoSel; soundness holds for '
                         'every environment) and are covered there by correspondence only')
@@ -146,8 +151,10 @@ class C01(Check):
             'length <= 5 over {a / 1 - CR}. A fifth of the histories use the built-in filter pool: path wildcards before '
             'literals made of regex metacharacters (.tar/ +x (1) [a] $ ^ | ? * \\d) continuing afterwards, with decoy '
             'occurrences later in the path; int/float with signs, leading zeros, Unicode digits, exponent-like text; '
-            'plus driver probes of the live int/float/path handlers against the Lean reference semantics.')
-    assumptions = ['in the tree-walk model the filter handlers are a parameter (real handler results and compile errors shipped per lookup); the built-in filters int/float/path are pinned separately: reference semantics Model/RouterBuiltin.lean tied to the live handlers by the regenerated mask/probe tables (builtin_masks_pinned, builtin_probes_agree) and by driver probes on random texts, and the search oracle re-states them from their documentation (Unicode digits included) and compiles user regexes itself',
+            'plus driver probes of the live int/float/path handlers against the Lean reference semantics and against the concrete '
+            'filter environment (router bfilter: value as shipped and characters consumed; Unicode digits, newlines, 15/16/17-digit and '
+            'very long numerals, exponent-notation reprs).')
+    assumptions = ['user regular expressions (re / rex filters) are a parameter of the tree-walk model (real handler results and compile errors shipped per lookup); the built-in filters int/float/path are concrete Lean functions in the `…_builtin` theorems and in the `router histb` lines (Model/RouterBuiltinEnv.lean, tied to the live handlers by builtin_env_probes_agree and by >= 1200 direct probes per run); float(text) is computed for numerals of at most 15 significant digits between 1e-291 and 1e300 (IEEE-754 15-digit round trip, not proved in Lean) and is a parameter beyond; in the remaining (opaque-environment) theorems the built-in filters are pinned separately: reference semantics Model/RouterBuiltin.lean tied to the live handlers by the regenerated mask/probe tables (builtin_masks_pinned, builtin_probes_agree) and by driver probes on random texts, and the search oracle re-states them from their documentation (Unicode digits included) and compiles user regexes itself',
                    're itself (matching of a compiled pattern) is trusted',
                    'rule text contains no CR (the router\'s own wildcard marker; rule_without_marker_ok) and no repeated wildcard name: outside, Python pairs filters and markers wrongly and the model does not follow',
                    'for filters answering with a rex selector (two-pass lookup) only soundness is proved (get_sound, handler_called_only_on_match); which rule wins / 404-completeness there is covered by correspondence (hypothesis NoSel of the other theorems)',
